@@ -287,6 +287,8 @@ pub fn take_root_drop_dangling() -> u32 {
 pub type RootT = Rootable![Root<'_>];
 pub type A = Arena<RootT>;
 pub type H = DynamicRoot<Rootable![Node<'_>]>;
+/// handle for a stashed NON-TRACING object (a leaf)
+pub type HL = DynamicRoot<Rootable![RefLock<Leaf>]>;
 
 #[derive(Clone, Copy)]
 pub enum Obj<'gc> {
@@ -342,6 +344,8 @@ pub struct Shadow {
     pub roots: [Option<u8>; 2],
     /// live handles: (target id, set index, slot index)
     pub handles: [Option<(u8, u8, u8)>; 3],
+    /// live handles of stashed leaves: (leaf id, set index)
+    pub lhandles: [Option<(u8, u8)>; 2],
 }
 
 impl Shadow {
@@ -361,7 +365,7 @@ impl Shadow {
         (0..self.objs.len() as u8).filter(|i| seen[*i as usize]).collect()
     }
     pub fn root_ids(&self) -> Vec<u8> {
-        self.roots.iter().flatten().copied().chain(self.handles.iter().flatten().map(|h| h.0)).collect()
+        self.roots.iter().flatten().copied().chain(self.handles.iter().flatten().map(|h| h.0)).chain(self.lhandles.iter().flatten().map(|h| h.0)).collect()
     }
     pub fn reach(&self) -> Vec<u8> {
         self.closure(&self.root_ids())
@@ -440,6 +444,7 @@ pub struct World {
     pub addrs: Vec<(usize, u8)>,
     pub set_addrs: [usize; 2],
     pub hs: [Option<H>; 3],
+    pub hl: [Option<HL>; 2],
     /// handle lives inside a heap value of the other arena (product scope): where it is
     pub lent: [Option<*const H>; 3],
     /// product scope plumbing for `Lend`: the handle coming in / where it ended up
@@ -511,6 +516,7 @@ impl World {
             addrs: Vec::new(),
             set_addrs,
             hs: [None, None, None],
+            hl: [None, None],
             lent: [None, None, None],
             snap_cache: RefCell::new(None),
             wake_garbage: vec![],
@@ -639,6 +645,16 @@ impl World {
                 match set.try_fetch(hr) {
                     Ok(g) => st.push((*t, Obj::Node(g))),
                     Err(_) => viol!("c14.fetch_own", "try_fetch of live handle {hi} on its own set failed"),
+                }
+            }
+        }
+        for (hi, h) in self.sh.lhandles.iter().enumerate() {
+            if let Some((t, set)) = h {
+                let hr = self.hl[hi].as_ref().expect("leaf handle");
+                let set = root.sets[*set as usize].expect("set");
+                match set.try_fetch(hr) {
+                    Ok(g) => st.push((*t, Obj::Leaf(g))),
+                    Err(_) => viol!("c14.fetch_own", "try_fetch of live leaf handle {hi} on its own set failed"),
                 }
             }
         }
@@ -944,6 +960,12 @@ impl World {
             }
             for l in &self.lent {
                 v.push(l.is_some() as u8);
+            }
+            for h in &self.sh.lhandles {
+                match h {
+                    None => v.push(0),
+                    Some((t, set)) => v.extend([1, p(Some(*t)), *set]),
+                }
             }
             arena.mutate(|_, root| {
                 for k in 0..self.sc.sets as usize {
